@@ -266,6 +266,13 @@ func parsePromQLExprNode(node parser.Node, mQueryReqs []*structs.MetricsQueryReq
 		}
 	case *parser.ParenExpr:
 		// Ignore the ParenExpr, As the Expr inside the ParenExpr will be handled in the next iteration
+	case *parser.UnaryExpr:
+		// +x is x, handled in the next iteration; -x is evaluated as -1 * x
+		if node.Op == parser.SUB {
+			negation := &parser.BinaryExpr{Op: parser.MUL, LHS: &parser.NumberLiteral{Val: -1}, RHS: node.Expr}
+			mQueryReqs, queryArithmetic, err = handleBinaryExpr(negation, mQueryReqs, queryArithmetic)
+			exit = true
+		}
 	case *parser.NumberLiteral:
 		// Ignore the number literals, As they are handled in the handleCallExpr and BinaryExpr
 	case *parser.StringLiteral:
